@@ -86,8 +86,12 @@ type workerRun struct {
 }
 
 func runWorkerOnce(env *Env, args []string) (*workerRun, int, error) {
+	return runWorkerOnceEnv(env, args)
+}
+
+func runWorkerOnceEnv(env *Env, args []string, extraEnv ...string) (*workerRun, int, error) {
 	cmd := exec.Command(env.Self, args...)
-	cmd.Env = append(os.Environ(), "GOMAXPROCS=1", "GOGC=400", "GOTRACEBACK=single")
+	cmd.Env = append(append(os.Environ(), "GOMAXPROCS=1", "GOGC=200", "GOTRACEBACK=single"), extraEnv...)
 	stdout, err := cmd.StdoutPipe()
 	if err != nil {
 		return nil, 0, err
@@ -196,6 +200,8 @@ func RunE1(env *Env, p *Prop) *Result {
 			region := filepath.Join(work, fmt.Sprintf("%s-%s-w%d.cur", env.PropID, env.Tier, i))
 			after := ""
 			restarts := 0
+			scratchRetries := 0
+			hangFactor := 1.0
 			for {
 				os.Remove(region)
 				args := []string{"-worker", "-prop", env.PropID, "-tier", env.Tier, "-idx", strconv.Itoa(i), "-n", strconv.Itoa(env.Workers),
@@ -203,7 +209,12 @@ func RunE1(env *Env, p *Prop) *Result {
 				if after != "" {
 					args = append(args, "-after", after)
 				}
-				wr, code, err := runWorkerOnce(env, args)
+				wr, code, err := runWorkerOnceEnv(env, args, fmt.Sprintf("VERIF_HANG_FACTOR=%g", hangFactor))
+				if code == 3 && wr != nil && wr.hang != nil {
+					if okh, _ := wr.hang["ok"].(bool); !okh && scratchRetries < 2 {
+						wr.stats = nil // discarded: the worker is re-run from the beginning
+					}
+				}
 				mu.Lock()
 				if wr != nil {
 					for _, st := range wr.stats {
@@ -265,7 +276,18 @@ func RunE1(env *Env, p *Prop) *Result {
 						note = err.Error()
 					}
 				}
+				if !ok && code == 3 && scratchRetries < 2 {
+					// the watchdog fired before any case was published (a slow start on a
+					// loaded machine): run this worker again from the beginning with a longer limit
+					scratchRetries++
+					hangFactor *= 3
+					after = ""
+					continue
+				}
 				if !ok {
+					if wr != nil && wr.hang != nil {
+						note += fmt.Sprint(" stack at the watchdog: ", wr.hang["stack"])
+					}
 					mu.Lock()
 					res.HarnessErr = fmt.Sprintf("worker %d died (exit %d) without a recoverable case: %s", i, code, note)
 					mu.Unlock()
@@ -414,6 +436,7 @@ func Finish(env *Env, p *Prop, res *Result, start time.Time) int {
 	replayDir := filepath.Join(env.Root, "replay", env.PropID)
 	os.RemoveAll(replayDir)
 	nViol, nKnown, nFlaky := 0, 0, 0
+	var slow []string
 	var knownLines []string
 	confirmCap := 12
 	confirmed := 0
@@ -477,6 +500,11 @@ func Finish(env *Env, p *Prop, res *Result, start time.Time) int {
 				}
 			}
 			confirmed++
+			if !ok && (v.Kind == "hang" || v.Kind == "crash") {
+				// a case that is slow on a loaded machine but terminates when run alone is not a hang
+				slow = append(slow, fmt.Sprintf("%s %s size %d choices %v", v.Kind, v.Phase, v.Size, v.Choices))
+				continue
+			}
 			if !ok {
 				nFlaky++
 				fmt.Printf("HARNESS-FLAKY property=%s key=%q did not reproduce from its choice sequence\n", env.PropID, v.Key)
@@ -547,6 +575,9 @@ func Finish(env *Env, p *Prop, res *Result, start time.Time) int {
 	}
 	for k, v := range res.Extra {
 		cov[k] = v
+	}
+	if len(slow) > 0 {
+		cov["slow_cases_not_hangs"] = slow
 	}
 	if leaves < 1 {
 		cov["states"] = 1
